@@ -41,6 +41,15 @@ def apply_spec(edit, spec):
     elif edit["op"] == "list":
         l = O[edit["obj"]]["params"][edit["attr"]][1]
         list_op(l, edit["method"], edit["args"])
+    elif edit["op"] == "simulate":
+        pass            # a dated what-if leaves the baseline, hence the record of the inputs, unchanged
+    elif edit["op"] == "delete_pattern":
+        ups = O[spec["system"]]["params"]["usage_patterns"][1]
+        ups.remove(edit["obj"])
+        del O[edit["obj"]]
+    elif edit["op"] == "fresh_storage":
+        O[edit["new"]] = copy.deepcopy(edit["storage"])
+        O[edit["obj"]]["params"]["storage"] = ["ref", edit["new"]]
     else:
         raise ValueError(edit)
 
@@ -88,8 +97,50 @@ def apply_live(edit, objs):
     elif edit["op"] == "list":
         owner = objs[edit["obj"]]
         list_op(getattr(owner, edit["attr"]), edit["method"], edit["args"], conv=lambda n: objs[n], owner=owner, attr=edit["attr"])
+    elif edit["op"] == "simulate":
+        run_simulation(edit, objs)
+    elif edit["op"] == "delete_pattern":
+        # the pattern leaves the system and is deleted: the two public calls a user makes, one after the other
+        sysm = _system_of(objs)
+        up = objs[edit["obj"]]
+        sysm.usage_patterns = [x for x in sysm.usage_patterns if x.name != edit["obj"]]
+        up.self_delete()
+        del objs[edit["obj"]]
+    elif edit["op"] == "fresh_storage":
+        from .spec import EXTRA_CLASSES
+        o = edit["storage"]
+        objs[edit["new"]] = E.CLS[o["cls"]](edit["new"], **{p: val(vs, objs) for p, vs in o["params"].items()})
+        objs[edit["obj"]].storage = objs[edit["new"]]
     else:
         raise ValueError(edit)
+
+
+def _system_of(objs):
+    E = env.load()
+    return next(o for o in objs.values() if isinstance(getattr(o, "_value", o), E.System))
+
+
+def run_simulation(edit, objs):
+    """a dated what-if run in the middle of a history (with a few set / reset toggles): whatever it does - succeed, be refused - the
+    baseline is as before, so the history goes on as if nothing had happened"""
+    E = env.load()
+    from datetime import timedelta
+    sysm = _system_of(objs)
+    idxs = [up.utc_hourly_usage_journey_starts.value.index for up in sysm.usage_patterns
+            if not isinstance(up.utc_hourly_usage_journey_starts, E.EmptyExplainableObject)]
+    if not idxs:
+        return
+    first = min(i.min() for i in idxs).to_pydatetime(); last = max(i.max() for i in idxs).to_pydatetime()
+    span = max(0, int((last - first).total_seconds() // 3600))
+    date = first + timedelta(hours=int(round(edit["date_frac"] * span)))
+    try:
+        changes = [[getattr(objs[c["obj"]], c["attr"]), val(c["value"], objs)] for c in edit["changes"] if c["obj"] in objs]
+        sim = E.ModelingUpdate(changes, date)
+    except Exception:
+        return
+    for _ in range(edit.get("toggles", 0)):
+        sim.set_updated_values()
+        sim.reset_values()
 
 
 def inverse(edit, spec_before):
@@ -101,9 +152,17 @@ def inverse(edit, spec_before):
                                            for c in edit["changes"]]}
     if edit["op"] == "list":
         return {"op": "set", "obj": edit["obj"], "attr": edit["attr"], "value": copy.deepcopy(O[edit["obj"]]["params"][edit["attr"]])}
+    return None       # simulate (nothing to undo), delete_pattern / fresh_storage (not undone)
 
 
 def describe(edit):
+    if edit["op"] == "simulate":
+        return f"simulation(date at {edit['date_frac']:.2f} of the period, toggles={edit.get('toggles', 0)}: " + "; ".join(
+            f"{c['obj']}.{c['attr']}={c['value'][1:] if c['value'][0] != 'h' else 'h'}" for c in edit["changes"]) + ")"
+    if edit["op"] == "delete_pattern":
+        return f"system.usage_patterns without {edit['obj']}; {edit['obj']}.self_delete()"
+    if edit["op"] == "fresh_storage":
+        return f"{edit['obj']}.storage = new Storage {edit['new']}"
     if edit["op"] == "set":
         v = edit["value"]
         vs = f"h[{len(v[1])}]" if v[0] == "h" else v[1:]
@@ -341,6 +400,62 @@ def group_edit(rnd, spec):
     return {"op": "group", "changes": changes}
 
 
+def step_time_edit(rnd, spec):
+    """the time spent on a step moved across whole-hour boundaries (the delay of the jobs of the following steps is floored to hours)"""
+    O = spec["objects"]
+    steps = names_of(spec, "UsageJourneyStep")
+    if not steps:
+        return None
+    early = [st for uj in names_of(spec, "UsageJourney") for st in O[uj]["params"]["uj_steps"][1][:-1]]
+    st = rnd.choice(early or steps)
+    old = O[st]["params"]["user_time_spent"]
+    cands = [c for c in ([0, "s"], [10, "min"], [59, "min"], [61, "min"], [90, "min"], [130, "min"], [3, "hour"], [20, "min"]) if c != old[1:]]
+    m, u = rnd.choice(cands)
+    return {"op": "set", "obj": st, "attr": "user_time_spent", "value": ["q", m, u]}
+
+
+def simulate_edit(rnd, spec):
+    """a dated what-if (most of them containing a link change, so that untouched ancestors are replaced by copies and put back)"""
+    changes, seen = [], set()
+    gens = [link_edit, list_assign_edit, num_edit, num_edit, starts_edit] if rnd.random() < 0.75 else [num_edit, num_edit, starts_edit]
+    for g in gens[:rnd.randint(1, 3)] if gens[0] is link_edit else rnd.sample(gens, rnd.randint(1, 2)):
+        e = g(rnd, spec)
+        if e is None or e["op"] != "set" or (e["obj"], e["attr"]) in seen or e["obj"] == spec["system"]:
+            continue
+        seen.add((e["obj"], e["attr"]))
+        changes.append({"obj": e["obj"], "attr": e["attr"], "value": e["value"]})
+    if not changes:
+        return None
+    return {"op": "simulate", "changes": changes, "date_frac": rnd.choice([0.0, 0.0, 1.0, rnd.random(), rnd.random()]), "toggles": rnd.choice([0, 0, 1, 2])}
+
+
+def delete_pattern_edit(rnd, spec):
+    """a pattern leaves the system and is deleted (its journey, jobs, network may stay shared with the remaining patterns)"""
+    O = spec["objects"]
+    ups = O[spec["system"]]["params"]["usage_patterns"][1]
+    if len(ups) < 2 or len(set(ups)) != len(ups):
+        return None
+    up = rnd.choice(ups)
+    e = {"op": "delete_pattern", "obj": up}
+    return e if admissible(e, spec) else None
+
+
+def fresh_storage_edit(rnd, spec):
+    """a server gets a brand-new storage (its previous one stays behind, unused)"""
+    O = spec["objects"]
+    servers = [n for n in names_of(spec, "Server")]
+    if not servers:
+        return None
+    s = rnd.choice(servers)
+    k = 0
+    while f"stn{k}" in O:
+        k += 1
+    from .spec import obj
+    st = obj("Storage", data_storage_duration=["q", rnd.choice([5, 2]), "year"], storage_capacity=["q", rnd.choice([1.13, 2.37]), "TB"],
+             base_storage_need=["q", rnd.choice([0, 1.37]), "TB"])
+    return {"op": "fresh_storage", "obj": s, "new": f"stn{k}", "storage": st}
+
+
 @keeps_well_formed
 def same_target_group_edit(rnd, spec):
     """one grouped update that re-points two or three links to the SAME target (two jobs to one server, two patterns to one journey /
@@ -388,9 +503,10 @@ def fill_empty_step_edit(rnd, spec):
 
 
 KINDS = {"fill_empty_step": fill_empty_step_edit, "num": num_edit, "link": link_edit, "list_assign": list_assign_edit, "list_mut": list_mut_edit, "starts": starts_edit,
-         "server_type": server_type_edit, "group": group_edit, "same_target_group": same_target_group_edit}
+         "server_type": server_type_edit, "group": group_edit, "same_target_group": same_target_group_edit, "step_time": step_time_edit,
+         "simulate": simulate_edit, "delete_pattern": delete_pattern_edit, "fresh_storage": fresh_storage_edit}
 DEFAULT_MIX = ["num", "num", "num", "link", "link", "list_assign", "list_mut", "list_mut", "starts", "server_type", "group", "fill_empty_step",
-               "same_target_group"]
+               "same_target_group", "step_time", "simulate", "fresh_storage", "delete_pattern"]
 
 
 def rand_edit(rnd, spec, mix=None):
